@@ -152,7 +152,7 @@ func runC16Struct(c *Ctx, wl *walkLayers) {
 			continue
 		}
 		// scope
-		outer, hasOuter := pc[`eq("",structName)`]
+		outer, hasOuter := pc[outermostAtom(p)]
 		switch {
 		case rmExpr == "nil" || rmExpr == "":
 		case strings.HasPrefix(rmExpr, "v.ruleMap[g:valid."):
